@@ -1067,3 +1067,16 @@ Example C20_failed_patch_consumes_backup :
   all_clean cs (snd r) = true /\ spec_saves cs (snd r) (Some [1%N], None) = (Some [2%N], None).
 Proof. exact ex_failed_patch_consumes_backup. Qed.
 Print Assumptions C20_failed_patch_consumes_backup.
+
+(** non-vacuity of C20_history_good_version_survives: an interrupted patch whose debris
+    does not load, then another command - inside the guard; the second command
+    refuses to go on (A does not load), the complete version stays in A.bak *)
+Example C20_history_guard_satisfiable :
+  Forall (fun c => debris_unloadable hx_parse FJson (c_env c) (c_sch c)) hx_hist /\
+  (exists cur, hx_Good cur /\ Inv hx_parse (fun _ => true) hx_A hx_f2 cur) /\
+  let r := run_hist hx_parse hx_dump (fun _ => true) (fun _ => true) hx_unpickle (fun (d : N) (_ : N) => d)
+                    hx_A hx_hist hx_f2 in
+  snd r = [Raised KBase SWrite; Raised KExc SLoadDoc] /\
+  fst r hx_A = Some [7%N; 8%N; 9%N] /\ fst r (bak hx_A) = Some [1%N].
+Proof. exact ex_history_guard_satisfiable. Qed.
+Print Assumptions C20_history_guard_satisfiable.
